@@ -94,6 +94,23 @@ func methodShape(src, method string) (has, raw, addl bool) {
 	return true, strings.Contains(body, "var raw map[string]interface{}"), strings.Contains(body, "mapstructure.Decode(raw")
 }
 
+// nestedAddl: does a method of a type other than the root fill typed additional properties from its raw map?
+func nestedAddl(src string) bool {
+	for _, part := range strings.Split(src, "\nfunc (j *")[1:] {
+		if strings.HasPrefix(part, "RootJson) ") {
+			continue
+		}
+		body := part
+		if j := strings.Index(body, "\n}\n"); j >= 0 {
+			body = body[:j]
+		}
+		if strings.Contains(body, "mapstructure.Decode(raw") {
+			return true
+		}
+	}
+	return false
+}
+
 type callMeta struct {
 	text, fmt, prior string
 }
@@ -139,15 +156,19 @@ func subValues(texts []string, max int) []string {
 
 type totalCall struct {
 	RawNil   bool `json:"rawNil"`
+	HasNull  bool `json:"hasNull"` // the input text holds a null somewhere
 	Err      bool `json:"err"`
 	Panicked bool `json:"panicked"`
 	Changed  bool `json:"changed"`
 }
 
 type totalEvent struct {
-	HasRaw  bool        `json:"hasRaw"`
-	HasAddl bool        `json:"hasAddl"`
-	Calls   []totalCall `json:"calls"`
+	HasRaw  bool `json:"hasRaw"`
+	HasAddl bool `json:"hasAddl"`
+	// NestedAddl: some OTHER type of the program fills typed additional properties from its raw map (a nested
+	// object): a null at its position reaches that method through the root call
+	NestedAddl bool        `json:"nestedAddl"`
+	Calls      []totalCall `json:"calls"`
 }
 
 func malformed(text string) []string {
@@ -290,7 +311,7 @@ func RunTotal(f *Family, tier string) int {
 				continue
 			}
 			any = true
-			ev := totalEvent{HasRaw: raw, HasAddl: addl}
+			ev := totalEvent{HasRaw: raw, HasAddl: addl, NestedAddl: nestedAddl(src)}
 			bk := back{e: e, meth: meth}
 			for ci, m := range ms {
 				if (meth == "UnmarshalJSON") != (m.fmt == "jsondirect") {
@@ -298,7 +319,8 @@ func RunTotal(f *Family, tier string) int {
 				}
 				r := e.Out.Res[ci]
 				t := strings.TrimSpace(m.text)
-				ev.Calls = append(ev.Calls, totalCall{RawNil: t == "null" || t == "~" || t == "", Err: r.Err, Panicked: r.Panic, Changed: !r.Unchanged})
+				ev.Calls = append(ev.Calls, totalCall{RawNil: t == "null" || t == "~" || t == "", HasNull: strings.Contains(t, "null") || strings.Contains(t, "~"),
+					Err: r.Err, Panicked: r.Panic, Changed: !r.Unchanged})
 				bk.idx = append(bk.idx, ci)
 				ncalls++
 			}
